@@ -4,26 +4,26 @@ import glob, json, os
 V = os.path.dirname(os.path.dirname(os.path.abspath(__file__)))
 
 T = {
- "C01": ("exploration", "generated TT specs / index batches / expression trees vs independent dense NumPy algebra (abs-majorant rounding bound, bit-for-bit on small-integer cores)", "3/C01"),
- "C02": ("exploration", "generated spectra, threshold-adjacent accuracies and caps vs dense SVD tails of the input unfoldings (error bound, quasi-optimality bound, rank bounds), all four flag combinations; add_many vs a mirrored error recursion", "3/C02"),
- "C03": ("exploration", "generated dense arrays (exact-rank, noisy, full-rank, scales 1e-6..1e6) vs LAPACK SVD of the unfoldings; matrix factorisations vs reference SVD sizes, tails and orthogonality of the factors", "3/C03"),
- "C04": ("exploration", "generated TT specs incl. rank-deficient / over-ranked / 2^+-30-scaled cores, every pivot enumerated per tensor; dense preservation, Gram defects, norm concentration, rank caps, in-place aliasing contract, ValueError contract", "3/C04"),
- "C05": ("exploration", "generated low-rank targets and initial tensors; TT-cross result vs dense target, cached vs uncached run bit-identical with counter identities, info values recomputed independently", "3/C05"),
+ "C01": ("exploration", "generated TT specs / index batches / expression trees vs independent dense NumPy algebra (abs-majorant rounding bound, bit-for-bit on small-integer cores); tensors with up to 1e70 elements (also integer-stored count tensors whose entries pass 2^63) vs chains of small matrix products", "3/C01"),
+ "C02": ("exploration", "generated spectra, threshold-adjacent accuracies and caps vs dense SVD tails of the input unfoldings (error bound, quasi-optimality bound, rank bounds), all four flag combinations; add_many vs a mirrored error recursion; the same tensor with cores unbalanced by 2^+-600", "3/C02"),
+ "C03": ("exploration", "generated dense arrays (exact-rank, noisy, full-rank, scales 1e-6..1e6) vs LAPACK SVD of the unfoldings; matrix factorisations vs reference SVD sizes, tails and orthogonality of the factors; caps as NumPy scalars / 0-d arrays, inputs in C / Fortran / strided layout and integer storage", "3/C03"),
+ "C04": ("exploration", "generated TT specs incl. rank-deficient / over-ranked / 2^+-30-scaled cores, every pivot enumerated per tensor; dense preservation, Gram defects, norm concentration, rank caps, in-place aliasing contract, ValueError contract; chains of 400..4000 cores for the stabilised variant vs a Gram recursion with unbounded exponent", "3/C04"),
+ "C05": ("exploration", "generated low-rank targets and initial tensors; TT-cross result vs dense target, cached vs uncached run bit-identical with counter identities, info values recomputed independently; objective values handed back as float32 / integer arrays or lists must give the bit-identical run", "3/C05"),
  "C06": ("fault_enumeration", "per generated configuration a reference run records the oracle batches; then every budget m, every None-returning call k, every callback stop sweep and every subset of stop arguments is enumerated and checked for prefix determinism, counters, stop reason and well-formed finite result", "3/C06"),
- "C07": ("exploration", "generated training sets (duplicates, single-sample slices at chosen positions, weights), objective recomputed from a dense reference: monotone descent through the callback, ridge gradient of the last core, restart and permutation metamorphic relations, ValueError/skip contract, adaptive rank cap", "3/C07"),
- "C08": ("exploration", "generated tall matrices (conditioning up to 1e8, duplicate / zero rows, integer ties) vs validity predicates: distinct rows, B[I]=identity, A=B A[I], dominance bound with independently recomputed B, monotone volume in the iteration limit, ValueError contracts", "3/C08"),
+ "C07": ("exploration", "generated training sets (duplicates, single-sample slices at chosen positions, weights), objective recomputed from a dense reference: monotone descent through the callback, ridge gradient of the last core, restart and permutation metamorphic relations, ValueError/skip contract, adaptive rank cap; regularisation number as NumPy scalar / 0-d array must give the bit-identical run", "3/C07"),
+ "C08": ("exploration", "generated tall matrices (conditioning up to 1e8, duplicate / zero rows, integer ties) vs validity predicates: distinct rows, B[I]=identity, A=B A[I], dominance bound with independently recomputed B, monotone volume in the iteration limit, ValueError contracts; the same matrix in Fortran / strided / integer storage under the same predicates", "3/C08"),
  "C09": ("exploration", "API catalogue of every exported function x generated arguments in several memory layouts; deep byte snapshots before/after, np.shares_memory between results and arguments, write probes", "3/C09"),
- "C10": ("exploration", "Hypothesis rule-based state machine over global NumPy RNG state, heap poisoning and interleaved library calls; first-seen digest table per (function, preset, seed, spelling), legacy RNG state invariant, auditing generator objects", "3/C10"),
+ "C10": ("exploration", "Hypothesis rule-based state machine over global NumPy RNG state, heap poisoning and interleaved library calls; first-seen digest table per (function, preset, seed, spelling), legacy RNG state invariant, auditing generator objects; order-swap histories in forked children; a seeded routine fed from files written by objects with different random histories", "3/C10"),
  "C11": ("exploration", "degenerate input families x routines x flags (zero tensor, rank-deficient, over-ranked, rank 1, d=2, mode size 1, constant data, repeated samples): well-formedness, finiteness, -1 sentinel", "3/C11"),
  "C12": ("exploration", "generated polynomials in the exactness class as TT of Chebyshev series on generated boxes; evaluation, re-sampling, integration, differentiation, dense/TT agreement, fill value, custom bases, linearity and inverse pair vs analytic references", "3/C12"),
  "C13": ("exploration", "generated sample sets (full grids, sparse with duplicates, relabelled domains) with forcing/auditing generator as seed; independent recomputation of the additive model vs dense of the returned cores", "3/C13"),
- "C14": ("exploration", "forcing auditor: for every multi-index of small tensors the sampler is driven down that path and the product of the recorded conditional probabilities is compared with the entry share (exact decision, no statistics); structural checks for all samplers", "3/C14"),
- "C15": ("exploration", "generated tensors incl. ties / constants / rank 1; validity (indices in bounds, value equals entry, min<=max) always, exactness vs dense extrema when nothing is pruned and for rank 1; QTT variant; functional variant vs fine-grid maximum", "3/C15"),
- "C16": ("exploration", "generated tensors with d up to 3000 and total log2-norm in [-30000, 30000]; stabilised results vs an frexp-renormalised Gram reference, power-of-two rescaling metamorphic relation bit-for-bit", "3/C16"),
+ "C14": ("exploration", "forcing auditor: for every multi-index of small tensors the sampler is driven down that path and the product of the recorded conditional probabilities is compared with the entry share (exact decision, no statistics); structural checks for all samplers; chains of 12..64 modes incl. integer-stored count tensors whose sums pass 2^63", "3/C14"),
+ "C15": ("exploration", "generated tensors incl. ties / constants / rank 1; validity (indices in bounds, value equals entry, min<=max) always, exactness vs dense extrema when nothing is pruned and for rank 1; QTT variant; functional variant vs fine-grid maximum; integer-stored cores vs their float64 copy (identical answers)", "3/C15"),
+ "C16": ("exploration", "generated tensors with d up to 3000 and total log2-norm in [-30000, 30000]; stabilised results vs an frexp-renormalised Gram reference, power-of-two rescaling metamorphic relation bit-for-bit; integer-stored cores vs their float64 copy bit-for-bit", "3/C16"),
  "C17": ("exploration", "exhaustive enumeration of all multi-indices for all (q,d) with q*d bounded for the index maps; generated TT tensors of shape [2^q]*d for the value-preserving conversion", "3/C17"),
  "C18": ("exploration", "exhaustive over all indices for grid sizes up to a bound on generated boxes; exact Fraction / acos references for arbitrary points; option-spelling equivalence; flat grid and CDF helper vs definitions", "3/C18"),
  "C19": ("exploration", "exhaustive over positions for the delta constructors; generated shapes/values/zero lists for const and poly vs dense definitions; auditing generator as seed for the random constructors", "3/C19"),
- "C20": ("exploration", "generated low-rank tensors sampled at sample_tt's structured set; recovered tensor vs dense target, rank caps", "3/C20"),
+ "C20": ("exploration", "generated low-rank tensors sampled at sample_tt's structured set; recovered tensor vs dense target, rank caps; tensors of 22..100 modes with chain-evaluated sample and test values", "3/C20"),
 }
 TEXT = {
  "exploration": "No counterexample among the generated cases of this run; the generator's class histogram and the non-trivial count are in the evidence file. Right level because the property quantifies over a continuous input space where search against an explicit oracle is what this technique family offers; it never establishes absence.",
